@@ -1,0 +1,45 @@
+//go:build verif
+
+// Contracts for the deductive checker in /verif (govc). Comment-only; ignored without the
+// "verif" build tag.
+//
+// C03. Cryptography is uninterpreted: pk_addr(pk) is the address of a key, pk_verify(pk, m, s)
+// signature verification, sign_bytes(chain, entropy, fee, msg, memo) the canonical sign bytes,
+// msg_signer(m) the signer a message declares, msg_fee(m) the fee its type requires,
+// tx_in_index(h) whether the node's tx index already holds hash h.
+
+package auth
+
+//@ func ValidateMemo(stdTx StdTx, params Params) (err sdk.Error)
+//@   props C03
+//@   ensures (err == nil) == (len(stdTx.Memo) <= params.MaxMemoCharacters)
+//@
+//@ assumed func ValidateSignatureDepth(limit uint64, publicKey posCrypto.PublicKeyMultiSig) (ok bool)
+//@   mode value
+//@   ensures ok == sig_depth_ok(limit, publicKey)
+//@
+// ValidateTransaction accepts only if: memo within bounds; the key used - the one carried in the
+// signature if present, else the signer account's stored key - hashes to the signer the message
+// declares; the signature verifies under that key over the canonical sign bytes (unless simulating);
+// the fee covers the required fee; the tx hash is not in the tx index.
+//@ func ValidateTransaction(ctx sdk.Ctx, k Keeper, stdTx StdTx, params Params, tmNode *node.Node, txBz []byte, simulate bool) (err sdk.Error)
+//@   props C03
+//@   requires valid(stdTx.Fee)   // established by StdTx.ValidateBasic, which the ante handler runs first
+//@   modifies acct.id, acct.next, acct.coins, acct.addr
+//@   ensures [memo] err == nil ==> len(stdTx.Memo) <= params.MaxMemoCharacters
+//@   ensures [replay] err == nil ==> !tx_in_index(tx_hash(txBz))
+//@   ensures [signer] err == nil && stdTx.Signature.PublicKey != nil && len(pk_raw(stdTx.Signature.PublicKey)) != 0 ==> pk_addr(stdTx.Signature.PublicKey) == msg_signer(stdTx.Msg)
+//@   ensures [signature] err == nil && !simulate && stdTx.Signature.PublicKey != nil && len(pk_raw(stdTx.Signature.PublicKey)) != 0
+//@        ==> pk_verify(stdTx.Signature.PublicKey, sign_bytes(ctx_chainid(ctx), stdTx.Entropy, stdTx.Fee, stdTx.Msg, stdTx.Memo), stdTx.Signature.Signature)
+//@   ensures [statekey] err == nil && !(stdTx.Signature.PublicKey != nil && len(pk_raw(stdTx.Signature.PublicKey)) != 0) ==> auth.has[msg_signer(stdTx.Msg)]
+//@   ensures [fee] err == nil ==> amt(stdTx.Fee, "upokt") >= msg_fee(stdTx.Msg)
+//@
+// DeductFees: the fee moves from the signer's own balance to the fee collector, or nothing changes
+//@ func DeductFees(keeper keeper.Keeper, ctx sdk.Ctx, tx types.StdTx) (err sdk.Error)
+//@   props C03 C02 C10
+//@   uses bankinv
+//@   requires msg_signer(tx.Msg) != modaddr("fee_collector")
+//@   modifies acct.id, acct.next, acct.coins, acct.addr, auth.bal[msg_signer(tx.Msg)], auth.has[msg_signer(tx.Msg)], auth.bal[modaddr("fee_collector")], auth.has[modaddr("fee_collector")]
+//@   ensures [paid] err == nil ==> (forall d Str :: amt(auth.bal[msg_signer(tx.Msg)], d) == amt(old(auth.bal[msg_signer(tx.Msg)]), d) - amt(tx.Fee, d) && amt(auth.bal[modaddr("fee_collector")], d) == amt(old(auth.bal[modaddr("fee_collector")]), d) + amt(tx.Fee, d))
+//@   ensures [refused] err != nil ==> auth.bal == old(auth.bal)
+//@   ensures auth.supply == old(auth.supply)
